@@ -271,14 +271,16 @@ def check_fit(case, ctx):
 
 
 def slicer_spec(draw, kind, X_hi, n):
+    # value_range narrower than the data (observations outside it belong to no interval)
+    vr = draw(st.sampled_from([None, None, None, [0.0, round(0.7 * X_hi, 3)], [round(0.08 * X_hi, 3), round(0.8 * X_hi, 3)]]))
     if kind == "width":
         k = draw(st.integers(4, 9))
         w = round(X_hi / k, 2) or 0.1
         return dict(kind="width", width=float(w), min_n_points=draw(st.sampled_from([10, 20])), min_n_intervals=3,
-                    right_open=draw(st.booleans()), reference=draw(st.sampled_from(["center", "left", "right", "np.median"])))
+                    right_open=draw(st.booleans()), reference=draw(st.sampled_from(["center", "left", "right", "np.median"])), value_range=vr)
     if kind == "number":
         return dict(kind="number", n_intervals=draw(st.integers(3, 8)), min_n_points=draw(st.sampled_from([10, 20])), min_n_intervals=3,
-                    include_max=draw(st.booleans()), reference=draw(st.sampled_from(["center", "left", "right", "np.median"])))
+                    include_max=draw(st.booleans()), reference=draw(st.sampled_from(["center", "left", "right", "np.median"])), value_range=vr)
     per = max(25, n // draw(st.integers(3, 9)))
     return dict(kind="points", n_points=int(per), last_full=draw(st.booleans()), min_n_points=20, min_n_intervals=3,
                 reference=draw(st.sampled_from(["np.median", "np.mean"])))
